@@ -989,9 +989,22 @@ func (g *gen) tplDiscloseMixed() {
 		g.msg(s, &Msg{Kind: "sub", Req: req, URI: topic})
 	}
 	pub := g.alive[g.r.IntN(len(g.alive))]
-	for i := 0; i < 2; i++ {
+	if g.chance(0.6) {
+		// the publisher holds the topic itself (and hears its own events)
+		req := g.nextReq(pub)
+		g.subs = append(g.subs, subRec{pub, req})
+		g.msg(pub, &Msg{Kind: "sub", Req: req, Opts: Val{T: 'd'}, URI: topic})
+	}
+	for i := 0; i < 3; i++ {
 		g.pubs++
-		g.msg(pub, &Msg{Kind: "pub", Req: g.nextReq(pub), Opts: Dict(KV{"disclose_me", Bool(true)}, KV{"exclude_me", Bool(false)}), URI: topic, Args: List(Int('l', int64(g.pubs))), Kw: Dict()})
+		o := Dict(KV{"disclose_me", Bool(true)}, KV{"exclude_me", Bool(false)})
+		switch i {
+		case 1: // with a receiver filter that excludes nobody who matters
+			o.D = append(o.D, KV{"exclude", List(Int('l', 999999))})
+		case 2:
+			o.D = append(o.D, KV{"eligible_authrole", List(Str("anonymous"), Str("trusted"))}, KV{"acknowledge", Bool(true)})
+		}
+		g.msg(pub, &Msg{Kind: "pub", Req: g.nextReq(pub), Opts: o, URI: topic, Args: List(Int('l', int64(g.pubs))), Kw: Dict()})
 	}
 	g.tag("disclose-mixed-remote-subscribers")
 }
